@@ -574,7 +574,7 @@ class Interp:
         rows.append(acc)
       out = np.empty((len(rows),) + operand.shape[1:], dtype=object)
       for i, r in enumerate(rows):
-        out[i] = r
+        out[i] = r[()] if (isinstance(r, np.ndarray) and r.shape == ()) else r      # a 0-d object array would be stored as a nested array
       return [out.reshape(tuple(eqn.outvars[0].aval.shape))]
     raise Unsupported('symbolic index operand of %s' % p)
 
